@@ -1,14 +1,79 @@
 """Which units / Kani harnesses decide which property (DESIGN section 6)."""
 
+I64_MIN, I64_MAX, U64_MAX = -(1 << 63), (1 << 63) - 1, (1 << 64) - 1
+
+
+def matches(obs, want):
+    """obs: what /verif/replay observed on the real code; want: what the property demands"""
+    if want[0] == 'error':
+        return obs.get('outcome') in ('error', 'compile_error')
+    if want[0] == 'value':
+        return obs.get('outcome') == 'value' and obs.get('type') == want[1] and str(obs.get('value')) == str(want[2])
+    if want[0] == 'no-panic':
+        return obs.get('outcome') in ('value', 'error', 'compile_error')
+    if want[0] == 'any-of':
+        return any(matches(obs, w) for w in want[1])
+    return False
+
+
+def tdiv(a, b):
+    q = abs(a) // abs(b)
+    return q if (a >= 0) == (b > 0) else -q
+
+
+def trem(a, b):
+    return a - b * tdiv(a, b)
+
+
+def exact(kind, v):
+    if v is None:
+        return ('error',)
+    lo, hi = (I64_MIN, I64_MAX) if kind == 'int' else (0, U64_MAX)
+    return ('value', kind, v) if lo <= v <= hi else ('error',)
+
+
+CV = 'rscel/src/types/cel_value.rs'
+KANI = {}
+
+
+def _arith(kind, rty):
+    ops = {'add': ('+', lambda a, b: a + b), 'sub': ('-', lambda a, b: a - b), 'mul': ('*', lambda a, b: a * b),
+           'div': ('/', lambda a, b: None if b == 0 else tdiv(a, b)), 'rem': ('%', lambda a, b: None if b == 0 else trem(a, b))}
+    for name, (sym, f) in ops.items():
+        KANI[f'arith_{kind}_{name}'] = dict(
+            inject=CV, module='cel_value.rs', fq=f'types::cel_value::verif_kani_cv::arith_{kind}_{name}', exhaustive=True,
+            functions=[f'impl {name.capitalize()} for CelValue', 'CelValue::type_prop', 'CelValue::error_prop_or'],
+            claim=f'{kind} {sym} {kind} returns the exact result when representable and an error otherwise, for all 2^128 operand pairs',
+            vars=[('a', rty), ('b', rty)],
+            replay=dict(expr=f'a {sym} b', bind=(lambda v, kind=kind: {'a': {kind: str(v['a'])}, 'b': {kind: str(v['b'])}}),
+                        oracle=(lambda v, f=f, kind=kind: exact(kind, f(v['a'], v['b'])))))
+    KANI[f'arith_{kind}_neg'] = dict(
+        inject=CV, module='cel_value.rs', fq=f'types::cel_value::verif_kani_cv::arith_{kind}_neg', exhaustive=True,
+        functions=['impl Neg for CelValue'], claim=f'-{kind}: exact or error (negating an unsigned value is an error)',
+        vars=[('a', rty)],
+        replay=dict(expr='-a', bind=(lambda v, kind=kind: {'a': {kind: str(v['a'])}}),
+                    oracle=(lambda v, kind=kind: exact('int', -v['a']) if kind == 'int' else ('error',))))
+
+
+_arith('int', 'i64')
+_arith('uint', 'u64')
+
+ARITH_TWINS = [k for k in KANI if k.startswith('arith_')]
+
 PROPS = {
     'C03': dict(
         units=['value_arith'],
         kani_quick=[],
-        kani_thorough=[],
-        twins={},
-        not_covered=['IEEE-754 value of the double arms (Verus proves only the result kind; the Kani float twins decide the value)'],
+        kani_thorough=ARITH_TWINS,
+        twins={
+            r'as (Add)::add::.*(int_result|no-overflow)': 'arith_int_add', r'as Add::add::.*uint_result': 'arith_uint_add',
+            r'as Sub::sub::.*(int_result|no-overflow)': 'arith_int_sub', r'as Sub::sub::.*uint_result': 'arith_uint_sub',
+            r'as Mul::mul::.*(int_result|no-overflow)': 'arith_int_mul', r'as Mul::mul::.*uint_result': 'arith_uint_mul',
+            r'as Div::div::.*(int_result|requires@std|no-division)': 'arith_int_div', r'as Div::div::.*uint_result': 'arith_uint_div',
+            r'as Rem::rem::.*(int_result|requires@std)': 'arith_int_rem', r'as Rem::rem::.*(uint_result|no-division)': 'arith_uint_rem',
+            r'as Neg::neg::.*(int_exact|no-overflow)': 'arith_int_neg', r'as Neg::neg::.*unsigned': 'arith_uint_neg',
+        },
+        not_covered=['IEEE-754 value of the double arms in Verus (result kind only; the Kani float twins decide the value)'],
         assumptions=['`%` on doubles is an error in the code; the statement allows either reading, the error reading is specified'],
     ),
 }
-
-KANI = {}
